@@ -16,17 +16,15 @@ POST = {"default": 0}
 for a in ("NLOPT_GN_DIRECT", "NLOPT_GN_DIRECT_L", "NLOPT_GN_DIRECT_L_RAND", "NLOPT_GN_DIRECT_NOSCAL", "NLOPT_GN_DIRECT_L_NOSCAL", "NLOPT_GN_DIRECT_L_RAND_NOSCAL"):
     POST[a] = 1
 for a in ("NLOPT_LD_TNEWTON", "NLOPT_LD_TNEWTON_RESTART", "NLOPT_LD_TNEWTON_PRECOND", "NLOPT_LD_TNEWTON_PRECOND_RESTART", "NLOPT_LD_LBFGS", "NLOPT_LD_VAR1", "NLOPT_LD_VAR2"):
-    POST[a] = 2
-POST["NLOPT_GN_AGS"] = 3
+    POST[a] = 25                         # Luksan: flag examined once per iteration; a line search makes up to ~20 evaluations
+POST["NLOPT_GN_AGS"] = 8
 POST["NLOPT_LN_PRAXIS"] = 2
 
 
 def post_bound(ri):
     b = POST.get(ri.name, 0)
-    if ri.name == "NLOPT_GN_CRS2_LM":
-        return None                      # initial population is evaluated without a test: see known findings
-    if ri.name in ("NLOPT_GD_STOGO", "NLOPT_GD_STOGO_RAND"):
-        return None
+    if ri.name in problems.MLSL or ri.name in problems.AUGLAG:
+        b += 1 + (POST.get(ri.local_name, 0) if ri.local_name else 0)
     return b
 
 
@@ -41,6 +39,9 @@ def mon_forced(ri):
     after = len(r.calls) - k
     fv = int(ri.sp.get("forceval", 1)) if ri.sp.get("setforce") == "1" else 1
     if ri.ret != -5:
+        if all(a == b for a, b in zip(ri.lb, ri.ub)):
+            return ({"cause": "forced stop not reported", "detail": "problem without free variables (single evaluation, no stop test)"},
+                    "%s: all coordinates fixed: the stop raised in the only evaluation is not reported (ret=%d)" % (ri.name, ri.ret))
         return ({"alg": ri.name, "cause": "forced stop not reported", "ret": str(ri.ret) if ri.ret < 0 else "success code"},
                 "%s: stop raised in callback %d but nlopt_optimize returned %d after %d further callbacks" % (ri.name, k, ri.ret, after))
     b = post_bound(ri)
